@@ -183,26 +183,28 @@ theorem C04_removed_never_routes_prepost (l : List Rule4) (d : DomainRule) (p : 
     included) the host trie is well formed, has no empty leaf, and the leaf of
     each host holds exactly the Spec's configured tree frontends of that host,
     in configuration order; keys of no configured host have no leaf; the
-    pre/post lists have pairwise distinct keys. -/
-theorem C04_tree_is_configured_set (o : Oracle) (ops : List Op) (hp : ProperHistory ops) :
-    Inv (treeHosts ops) (run o ops) (Spec.run ops) :=
-  inv_run o (treeHosts ops) hp.inj ops _ _ (inv_init _) hp.proper (fun op hop h0 h1 => mem_treeHosts hop h0 h1)
+    pre/post lists have pairwise distinct keys (`Inv`) and are exactly the
+    Spec's pre/post frontends in configuration order (`PInv`). -/
+theorem C04_tree_is_configured_set (o : Oracle) (ops : List Op) (hg : GoodHistory ops) :
+    Inv (treeHosts ops) (run o ops) (Spec.run ops) ∧ PInv (treeHosts ops) (run o ops) (Spec.run ops) :=
+  both_of_good o ops hg (treeHosts ops) (treeHosts_good hg) (fun _ h => h)
 
 /-- every reachable tree is well formed, so the single-step theorems
     (`C04_removed_never_routes`, `C04_irrelevant_change_*`) apply after any history -/
-theorem C04_reachable_wf (o : Oracle) (ops : List Op) (hp : ProperHistory ops) : WF (run o ops).tree :=
-  (C04_tree_is_configured_set o ops hp).wf
+theorem C04_reachable_wf (o : Oracle) (ops : List Op) (hg : GoodHistory ops) : WF (run o ops).tree :=
+  (C04_tree_is_configured_set o ops hg).1.wf
 
 /-- C04 (order independence, history-wide): two histories (adds, removes,
     failing operations, any interleaving) that configure, for every host, the
     same tree frontends up to order give the same tree lookup for every
     request, provided at most one REGEX rule of a host attains the maximal
     rank for that request. -/
-theorem C04_order_independent_history (o : Oracle) (ops₁ ops₂ : List Op) (hp : ProperHistory (ops₁ ++ ops₂))
+theorem C04_order_independent_history (o : Oracle) (ops₁ ops₂ : List Op) (hg : GoodHistory (ops₁ ++ ops₂))
     (hsame : ∀ H, (specLeaf (Spec.run ops₁) H).Perm (specLeaf (Spec.run ops₂) H))
     (qhost : Bytes) (qds : List Bytes) (ql : Bytes) (hq : splitHost qhost = qSegs qds ql) (path method : Bytes)
     (hregex : ∀ H, AtMostOneRegexAtMax o path method (specLeaf (Spec.run ops₁) H)) :
     lookupTree o (run o ops₁).tree qhost path method = lookupTree o (run o ops₂).tree qhost path method := by
+  have hp := goodHistory_proper hg
   have hHs : treeHosts (ops₁ ++ ops₂) = treeHosts ops₁ ++ treeHosts ops₂ := by simp [treeHosts]
   have I₁ : Inv (treeHosts (ops₁ ++ ops₂)) (run o ops₁) (Spec.run ops₁) :=
     inv_run o _ hp.inj ops₁ _ _ (inv_init _) (fun op h => hp.proper op (by simp [h]))
@@ -263,6 +265,128 @@ theorem C04_order_independent_history (o : Oracle) (ops₁ ops₂ : List Op) (hp
     · simpa using b
   · simpa using a
 
+/-! ### end to end: `Router::lookup` is the Spec's route of the configured set -/
+
+/-- C04 (end to end): for every history of add/remove operations (pre, post,
+    tree frontends with plain regex-free hostnames; failing operations
+    included), every regex oracle and every request with a non-degenerate
+    hostname, `Router::lookup` returns one of the answers the Spec admits for
+    the *set* of configured frontends: first matching pre rule in order, else
+    the most specific host (exact over single-label wildcard), within it the
+    rule of maximal rank (EQUALS > REGEX > PREFIX, longer prefix,
+    method-specific), else the first matching post rule, else no route. -/
+theorem C04_route_is_spec (o : Oracle) (ops : List Op) (hg : GoodHistory ops)
+    (host : Bytes) (hh : GoodHost host) (path method : Bytes) :
+    Spec.admissible (lookupRoute o (run o ops) host path method)
+      (Spec.route o (Spec.run ops) host path method) = true := by
+  obtain ⟨hI, hP⟩ := both_of_good o ops hg (treeHosts ops) (treeHosts_good hg) (fun _ h => h)
+  exact route_admissible o _ (treeHosts_good hg) _ _ hI hP host hh path method
+
+/-- C04 (end to end, unique answer): whenever the Spec admits exactly one
+    answer (always, unless two REGEX rules of the selected host tie at the
+    maximal rank), the lookup *is* that answer — it is a function of the
+    configured set and the request alone. -/
+theorem C04_route_is_spec_unique (o : Oracle) (ops : List Op) (hg : GoodHistory ops)
+    (host : Bytes) (hh : GoodHost host) (path method : Bytes) (x : Option Route)
+    (hx : Spec.route o (Spec.run ops) host path method = [x]) :
+    lookupRoute o (run o ops) host path method = x := by
+  have h := C04_route_is_spec o ops hg host hh path method
+  rw [hx] at h
+  simpa [Spec.admissible] using h
+
+/-- C04 (order independence, Router level): two histories with the same
+    pre frontends and the same post frontends in the same order, and, for every
+    host, the same tree frontends up to order, route every request alike —
+    remaining hypotheses: hostnames of tree frontends regex-free
+    (`GoodHistory`), and at most one REGEX rule of a host at the maximal rank
+    for the request (`AtMostOneRegexAtMax`). -/
+theorem C04_order_independent_router (o : Oracle) (ops₁ ops₂ : List Op) (hg : GoodHistory (ops₁ ++ ops₂))
+    (hpre : (Spec.run ops₁).filter (fun fe => fe.pos == 0) = (Spec.run ops₂).filter (fun fe => fe.pos == 0))
+    (hpost : (Spec.run ops₁).filter (fun fe => fe.pos == 1) = (Spec.run ops₂).filter (fun fe => fe.pos == 1))
+    (htree : ∀ H, (specLeaf (Spec.run ops₁) H).Perm (specLeaf (Spec.run ops₂) H))
+    (host : Bytes) (hh : GoodHost host) (path method : Bytes)
+    (hregex : ∀ H, AtMostOneRegexAtMax o path method (specLeaf (Spec.run ops₁) H)) :
+    lookupRoute o (run o ops₁) host path method = lookupRoute o (run o ops₂) host path method := by
+  have hg1 : GoodHistory ops₁ := fun op h => hg op (by simp [h])
+  have hg2 : GoodHistory ops₂ := fun op h => hg op (by simp [h])
+  obtain ⟨_, hP1⟩ := both_of_good o ops₁ hg1 (treeHosts ops₁) (treeHosts_good hg1) (fun _ h => h)
+  obtain ⟨_, hP2⟩ := both_of_good o ops₂ hg2 (treeHosts ops₂) (treeHosts_good hg2) (fun _ h => h)
+  obtain ⟨qds, ql, _, _, _, hq⟩ := host_split hh
+  have ht := C04_order_independent_history o ops₁ ops₂ hg htree host qds ql hq path method hregex
+  simp only [lookupRoute, ht, hP1.pre, hP2.pre, hP1.post, hP2.post, specList, hpre, hpost]
+
+/-- C04 (irrelevant change, Router level): after any good history, an add or a
+    remove of a frontend that is irrelevant for a request (`FrontIrrelevant`:
+    a pre/post rule not matching the request; a tree frontend whose host
+    pattern does not match the request's host) leaves that request's route
+    unchanged — whether the operation succeeds or fails. -/
+theorem C04_irrelevant_change (o : Oracle) (ops : List Op) (hg : GoodHistory ops) (op : Op)
+    (hop : GoodFront (frontOf op)) (host : Bytes) (hh : GoodHost host) (path method : Bytes)
+    (hirr : FrontIrrelevant o (frontOf op) host path method) :
+    lookupRoute o (step o (run o ops) op) host path method = lookupRoute o (run o ops) host path method := by
+  obtain ⟨hI, hP⟩ := both_of_good o ops hg (treeHosts ops) (treeHosts_good hg) (fun _ h => h)
+  obtain ⟨qds, ql, _, _, _, hq⟩ := host_split hh
+  cases op with
+  | add f =>
+    simp only [frontOf] at hop hirr
+    simp only [step, addFront]
+    cases hpath : pathOfFront f with
+    | none => rfl
+    | some p =>
+      cases hdom : parseDomain f.host f.hostOk with
+      | none => rfl
+      | some d =>
+        simp only []
+        by_cases h0 : f.pos = 0
+        · simp only [FrontIrrelevant, h0, true_or, ↓reduceIte] at hirr
+          simp only [h0, ↓reduceIte, lookupRoute]
+          rw [C04_irrelevant_change_prepost_add o _ d p f.method _ host path method (hirr p d hpath hdom)]
+        · by_cases h1 : f.pos = 1
+          · simp only [FrontIrrelevant, h1, or_true, ↓reduceIte] at hirr
+            simp only [h0, h1, Nat.one_ne_zero, ↓reduceIte, lookupRoute]
+            rw [C04_irrelevant_change_prepost_add o _ d p f.method _ host path method (hirr p d hpath hdom)]
+          · simp only [FrontIrrelevant, h0, h1, or_self, ↓reduceIte] at hirr
+            simp only [h0, h1, Nat.one_ne_zero, ↓reduceIte]
+            obtain ⟨ds, l, _, _, hk, hs⟩ := good_split (hop h0 h1)
+            obtain ⟨hne1, hne2⟩ := irrelevant_keys (hop h0 h1) hq hirr hk
+            cases hadd : addTree o (run o ops).tree f.host p f.method (routeOfFront f) with
+            | none => rfl
+            | some x =>
+              simp only [lookupRoute]
+              rw [C04_irrelevant_change_add o _ x.1 hI.wf f.host ds l hs p f.method _ x.2 (by simpa using hadd)
+                host qds ql hq hne1 hne2 path method]
+  | remove f =>
+    simp only [frontOf] at hop hirr
+    simp only [step, removeFront]
+    cases hpath : pathOfFront f with
+    | none => rfl
+    | some p =>
+      simp only []
+      by_cases h0 : f.pos = 0
+      · simp only [FrontIrrelevant, h0, true_or, ↓reduceIte] at hirr
+        simp only [h0, ↓reduceIte]
+        cases hdom : parseDomain f.host f.hostOk with
+        | none => rfl
+        | some d =>
+          simp only [lookupRoute]
+          rw [C04_irrelevant_change_prepost_remove o _ d p f.method host path method
+            (fun x _ hk => by rw [rule4Matches_key o host path method x d p f.method (routeOfFront f) hk]; exact hirr p d hpath hdom)]
+      · by_cases h1 : f.pos = 1
+        · simp only [FrontIrrelevant, h1, or_true, ↓reduceIte] at hirr
+          simp only [h0, h1, Nat.one_ne_zero, ↓reduceIte]
+          cases hdom : parseDomain f.host f.hostOk with
+          | none => rfl
+          | some d =>
+            simp only [lookupRoute]
+            rw [C04_irrelevant_change_prepost_remove o _ d p f.method host path method
+              (fun x _ hk => by rw [rule4Matches_key o host path method x d p f.method (routeOfFront f) hk]; exact hirr p d hpath hdom)]
+        · simp only [FrontIrrelevant, h0, h1, or_self, ↓reduceIte] at hirr
+          simp only [h0, h1, Nat.one_ne_zero, ↓reduceIte, lookupRoute]
+          obtain ⟨ds, l, _, _, hk, hs⟩ := good_split (hop h0 h1)
+          obtain ⟨hne1, hne2⟩ := irrelevant_keys (hop h0 h1) hq hirr hk
+          rw [C04_irrelevant_change_remove o _ hI.wf f.host ds l hs p f.method host qds ql hq hne1 hne2 path method]
+
+
 /-! ### concrete data for regressions, counterexamples and non-vacuity -/
 
 def hAio : Bytes := [97, 46, 105, 111]            -- "a.io"
@@ -291,7 +415,7 @@ def fr (host : Bytes) (kind : Nat) (path : Bytes) (method : Option Bytes) (c : N
 /-- F1 (fixed by b632e1a): a removed EQUALS tree frontend no longer routes. -/
 theorem C04_regression_equals_rule_removed :
     lookupRoute oAll (run oAll [.add (fr hAio 2 pA none 1), .remove (fr hAio 2 pA none 1)]) hAio pA GET = none ∧
-    Spec.route oAll (Spec.run [.add (fr hAio 2 pA none 1), .remove (fr hAio 2 pA none 1)]) hAio pA GET = [] := by
+    Spec.route oAll (Spec.run [.add (fr hAio 2 pA none 1), .remove (fr hAio 2 pA none 1)]) hAio pA GET = [none] := by
   decide
 
 /-- F1b (fixed by b632e1a): a second add of the same EQUALS key is refused. -/
@@ -325,7 +449,7 @@ theorem C04_regression_full_prefix_vs_equals :
 theorem C04_regression_method_specific_regex_vs_equals :
     lookupRoute oAll (run oAll [.add (fr hAio 1 pA (some GET) 1), .add (fr hAio 2 pAb none 2)]) hAio pAb GET = some (.cluster [2]) ∧
     lookupRoute oAll (run oAll [.add (fr hAio 2 pAb none 2), .add (fr hAio 1 pA (some GET) 1)]) hAio pAb GET = some (.cluster [2]) ∧
-    Spec.route oAll (Spec.run [.add (fr hAio 1 pA (some GET) 1), .add (fr hAio 2 pAb none 2)]) hAio pAb GET = [.cluster [2]] := by
+    Spec.route oAll (Spec.run [.add (fr hAio 1 pA (some GET) 1), .add (fr hAio 2 pAb none 2)]) hAio pAb GET = [some (.cluster [2])] := by
   decide
 
 /-! ### counterexamples: the three open findings (regex-segment hosts, host-first
@@ -339,7 +463,7 @@ theorem C04_trie_refines_map_counterexample :
     lookupRoute oAll (run oAll [.add (fr hReAio 0 pSlash none 1), .add (fr hBcaio 0 pA none 2)]) hBaio pA GET
       = some (.cluster [2]) ∧
     Spec.route oAll (Spec.run [.add (fr hReAio 0 pSlash none 1), .add (fr hBcaio 0 pA none 2)]) hBaio pA GET
-      = [.cluster [1]] := by
+      = [some (.cluster [1])] := by
   decide
 
 /-- F29 `regex-segment-no-backtrack`: with `v./x.*/.io` configured, adding the
@@ -349,7 +473,7 @@ theorem C04_irrelevant_change_counterexample_regex_segment :
     lookupRoute oAll (run oAll [.add (fr hVXio 0 pSlash none 1)]) hVxyio pSlash GET = some (.cluster [1]) ∧
     lookupRoute oAll (run oAll [.add (fr hVXio 0 pSlash none 1), .add (fr hWxyio 0 pSlash none 2)]) hVxyio pSlash GET = none ∧
     Spec.route oAll (Spec.run [.add (fr hVXio 0 pSlash none 1), .add (fr hWxyio 0 pSlash none 2)]) hVxyio pSlash GET
-      = [.cluster [1]] := by
+      = [some (.cluster [1])] := by
   decide
 
 /-- F30 `nonmatching-frontend-changes-host-group`: the literal reading of "a
@@ -360,7 +484,7 @@ theorem C04_irrelevant_change_counterexample_regex_segment :
 theorem C04_irrelevant_change_counterexample :
     lookupRoute oAll (run oAll [.add (fr hStarAio 0 pSlash none 1)]) hBaio pA GET = some (.cluster [1]) ∧
     lookupRoute oAll (run oAll [.add (fr hStarAio 0 pSlash none 1), .add (fr hBaio 0 pZ none 2)]) hBaio pA GET = none ∧
-    Spec.route oAll (Spec.run [.add (fr hStarAio 0 pSlash none 1), .add (fr hBaio 0 pZ none 2)]) hBaio pA GET = [] := by
+    Spec.route oAll (Spec.run [.add (fr hStarAio 0 pSlash none 1), .add (fr hBaio 0 pZ none 2)]) hBaio pA GET = [none] := by
   decide
 
 /-! ### non-vacuity -/
@@ -375,18 +499,70 @@ def demoOps' : List Op :=
    .add (fr hBaio 0 pAb (some GET) 7), .remove (fr hBaio 2 pA none 9), .add (fr hBaio 2 pZ none 4), .add (fr hBaio 0 pA none 2)]
 
 example : lookupRoute oNone (run oNone demoOps) hBaio pAb GET = some (.cluster [3]) := by decide
-example : Spec.route oNone (Spec.run demoOps) hBaio pAb GET = [.cluster [3]] := by decide
+example : Spec.route oNone (Spec.run demoOps) hBaio pAb GET = [some (.cluster [3])] := by decide
 example : lookupRoute oNone (run oNone demoOps) hBcaio pA GET = some (.cluster [1]) := by decide
 example : lookupRoute oAll (run oAll demoOps) hBaio pZ GET = some (.cluster [4]) := by decide
 example : lookupRoute oAll (run oAll demoOps') hBaio pZ GET = some (.cluster [4]) := by decide
 
-theorem demo_proper : ProperHistory (demoOps ++ demoOps') := by
-  refine ⟨?_, by decide⟩
-  intro op hop _ _
-  have hb : ∀ op ∈ demoOps ++ demoOps', (frontOf op).host = hBaio ∨ (frontOf op).host = hStarAio := by decide
-  rcases hb op hop with e | e <;> rw [e]
-  · exact ⟨⟨[[105, 111], [97]], [98], by decide⟩, by decide⟩
-  · exact ⟨⟨[[105, 111], [97]], [STAR], by decide⟩, by decide⟩
+example : GoodHistory (demoOps ++ demoOps') := by decide
+
+-- instances of the end-to-end theorems on the demo histories
+example : lookupRoute oNone (run oNone demoOps) hBaio pAb GET = some (.cluster [3]) :=
+  C04_route_is_spec_unique oNone demoOps (by decide) hBaio (by decide) pAb GET (some (.cluster [3])) (by decide)
+example : lookupRoute oAll (run oAll demoOps) hBaio pZ GET = lookupRoute oAll (run oAll demoOps') hBaio pZ GET := by
+  rw [C04_route_is_spec_unique oAll demoOps (by decide) hBaio (by decide) pZ GET (some (.cluster [4])) (by decide),
+      C04_route_is_spec_unique oAll demoOps' (by decide) hBaio (by decide) pZ GET (some (.cluster [4])) (by decide)]
+-- an irrelevant tree frontend (host `a.io` vs request host `b.a.io`), and the F30 shape which is *not* irrelevant
+example : FrontIrrelevant oAll (fr hAio 0 pSlash none 9) hBaio pA GET := by
+  have h : Spec.treeHostMatch oAll hAio hBaio = none := by decide
+  simpa [FrontIrrelevant, fr] using h
+example : ¬ FrontIrrelevant oAll (fr hBaio 0 pZ none 9) hBaio pA GET := by
+  have h : Spec.treeHostMatch oAll hBaio hBaio ≠ none := by decide
+  simpa [FrontIrrelevant, fr] using h
+example : GoodHost hBaio ∧ GoodName hStarAio ∧ ¬ GoodName hReAio := by decide
+
+-- the hypotheses of the Router-level order-independence theorem hold for the two demo histories
+-- (for *every* host), and the theorem applies
+example : lookupRoute oNone (run oNone demoOps) hBaio pAb GET = lookupRoute oNone (run oNone demoOps') hBaio pAb GET := by
+  have demo_leaf : ∀ (ops : List Op), (∀ fe ∈ Spec.run ops, fe.host = hBaio ∨ fe.host = hStarAio) → ∀ H,
+      H ≠ hBaio → H ≠ hStarAio → specLeaf (Spec.run ops) H = [] := by
+    intro ops hH H h1 h2
+    simp only [specLeaf, List.map_eq_nil_iff, List.filter_eq_nil_iff, Bool.and_eq_true, beq_iff_eq, not_and]
+    intro fe hfe _ e
+    rcases hH fe hfe with h | h <;> rw [h] at e <;> simp_all
+  have htree : ∀ H, (specLeaf (Spec.run demoOps) H).Perm (specLeaf (Spec.run demoOps') H) := by
+    intro H
+    by_cases h1 : H = hBaio
+    · subst h1; decide
+    · by_cases h2 : H = hStarAio
+      · subst h2; decide
+      · rw [demo_leaf demoOps (by decide) H h1 h2, demo_leaf demoOps' (by decide) H h1 h2]
+  have hregex : ∀ H, AtMostOneRegexAtMax oNone pAb GET (specLeaf (Spec.run demoOps) H) := by
+    intro H a ha b hb k hka hkb _ hre
+    by_cases h1 : H = hBaio
+    · subst h1
+      have hl : specLeaf (Spec.run demoOps) hBaio =
+          [(.pfx pA, none, .cluster [2]), (.pfx pAb, some GET, .cluster [3]), (.equals pZ, none, .cluster [4]),
+           (.regex pZ, none, .cluster [5])] := by decide
+      rw [hl] at ha hb
+      obtain ⟨s, s', e1, e2⟩ := hre
+      simp only [List.mem_cons, List.not_mem_nil, or_false] at ha hb
+      rcases ha with rfl | rfl | rfl | rfl <;> rcases hb with rfl | rfl | rfl | rfl <;> simp_all
+    · by_cases h2 : H = hStarAio
+      · subst h2
+        have hl : specLeaf (Spec.run demoOps) hStarAio = [(.pfx pSlash, none, .cluster [1])] := by decide
+        rw [hl] at ha hb
+        simp only [List.mem_cons, List.not_mem_nil, or_false] at ha hb
+        rw [ha, hb]
+      · rw [demo_leaf demoOps (by decide) H h1 h2] at ha; cases ha
+  exact C04_order_independent_router oNone demoOps demoOps' (by decide) (by decide) (by decide) htree hBaio (by decide)
+    pAb GET hregex
+-- an instance of the Router-level irrelevant-change theorem
+example : lookupRoute oAll (step oAll (run oAll demoOps) (.add (fr hAio 0 pSlash none 9))) hBaio pA GET
+    = lookupRoute oAll (run oAll demoOps) hBaio pA GET :=
+  C04_irrelevant_change oAll demoOps (by decide) (.add (fr hAio 0 pSlash none 9)) (by decide) hBaio (by decide) pA GET
+    (by have h : Spec.treeHostMatch oAll hAio hBaio = none := by decide
+        simpa [FrontIrrelevant, fr, frontOf] using h)
 
 -- the hypotheses of the history-wide order-independence theorem hold for the two demo histories
 example : ∀ H ∈ [hBaio, hStarAio, hAio], (specLeaf (Spec.run demoOps) H).Perm (specLeaf (Spec.run demoOps') H) := by
